@@ -1037,6 +1037,14 @@ static void workload_alloc(const char* wl) {
   else if (!strcmp(wl, "mt")) { alloc_many(80, 1, 20000, 1); run_worker(120, 1, 4096); run_worker(40, 4097, 300000); run_worker(2, 17u << 20, 20u << 20); }
   else if (!strcmp(wl, "giant")) {   /* objects of many arena blocks: ranges that cross the 64-block fields of the arena bitmaps (needs MIMALLOC_ARENA_RESERVE >= 4 GiB) */
                                   alloc_many(2, (size_t)600 << 20, (size_t)700 << 20, 0); alloc_many(1, (size_t)1100 << 20, (size_t)1300 << 20, 0); alloc_many(1, (size_t)40 << 20, (size_t)70 << 20, 0); alloc_many(10, 1, 100000, 1); }
+  else if (!strcmp(wl, "reuse")) {   /* memory of freed multi-block objects is purged and then re-used for ordinary segments (their headers and page tables land on
+                                        memory the program had written; C13: whatever the purge mode, nothing may be assumed about its contents) */
+                                  alloc_many(1, (size_t)70 << 20, (size_t)100 << 20, 0); alloc_many(1, (size_t)36 << 20, (size_t)48 << 20, 0);
+                                  free_all_of_thread(-1); do_collect(1);
+#if defined(VF_SHIM)
+                                  vf_clock_advance(500); do_collect(1);
+#endif
+                                  alloc_many(280, 270000, 420000, 1); alloc_many(6, (size_t)2 << 20, (size_t)6 << 20, 0); }
   else if (!strcmp(wl, "mix")) { alloc_many(120, 1, 2048, 1); alloc_many(20, 8193, 600000, 1); alloc_many(1, 17u << 20, 20u << 20, 0); run_worker(60, 1, 70000); }
   else { fprintf(stderr, "unknown workload %s\n", wl); exit(2); }
 }
